@@ -168,6 +168,7 @@ def run_batch(adapter, tier, base, nruns, workers, soft_deadline_s, start=0):
                 agg['samples'].extend(r['samples'])
                 agg['chunks_done'] += 1
             if (len(set(v['violation']['key'] for v in agg['violations'])) >= 6 or len(agg['violations']) >= 60
+                    or (agg['violations'] and os.environ.get('KNEESIM_FAIL_FAST') == '1')      # used by the seeded / mutant runners only
                     or sum(1 for v in agg['violations'] if v['violation']['oracle'] == 'HANG') >= 2) or len(agg['harness_errors']) >= 5:
                 for f in pending:
                     f.cancel()
